@@ -101,6 +101,34 @@ class FakeOS:
         pass
 
 
+class OSHub:
+    """`hid.os` for SEVERAL drivers in one process (two USB interfaces on two DALI lines): every os.open() hands
+    out a new file descriptor bound to the FakeOS of the driver that is connecting; reads and writes are routed
+    by descriptor, so each driver talks to its own gateway only."""
+    O_RDWR = 2
+    O_NONBLOCK = 2048
+
+    def __init__(self):
+        self.views = {}
+        self.next_fd = 100
+        self.connecting = None
+
+    def open(self, p, f):
+        fd = self.next_fd
+        self.next_fd += 1
+        self.views[fd] = self.connecting
+        return fd
+
+    def write(self, fd, data):
+        return self.views[fd].write(fd, data)
+
+    def read(self, fd, n):
+        return self.views[fd].read(fd, n)
+
+    def close(self, fd):
+        pass
+
+
 def _stub_modules():
     for name in ("usb", "usb.core", "usb.util", "hid"):
         if name not in sys.modules:
@@ -124,12 +152,13 @@ def frame4(bits, data):
 class TriSim:
     """a connected hid.tridonic in the current (virtual) loop"""
 
-    def __init__(self, dev_inst_map=None, seq0=None):
+    def __init__(self, dev_inst_map=None, seq0=None, hub=None):
         _stub_modules()
         from dali.driver import hid
         self.hid = hid
         self.fos = FakeOS()
-        hid.os = self.fos
+        self.hub = hub
+        hid.os = self.fos if hub is None else hub
         self.d = hid.tridonic("/dev/null-dali", dev_inst_map=dev_inst_map)
         if seq0 is not None:
             self.d._cmd_seq = iter(self.d._seqnum(seq0))
@@ -138,6 +167,8 @@ class TriSim:
     async def start(self):
         loop = asyncio.get_running_loop()
         self.loop = loop
+        if self.hub is not None:
+            self.hub.connecting = self.fos
         self.d.connect()
         self._push(bytes([1, 0, 0, 1, 2] + [0] * 59))
         await settle(2)
